@@ -109,6 +109,43 @@ template <class E> void typed_container(Ctx& c, uint64_t m) {
 	}
 }
 
+// std::string overloads: Read(string) fills the existing length, Read<SizeType>(string) is the size-prefixed form (map and tile-group names)
+void typed_string(Ctx& c, uint64_t m) {
+	uint64_t rem = c.window.size() - c.cur;
+	if (m > 4096) m = 4096 + (m & 63);
+	std::string v(size_t(m), '\x55');
+	Out o = guarded([&] { c.r->Read(v); });
+	if (m <= rem) {
+		V_CHECK(o == Out::Ok, "string read of " << m << " bytes, rem " << rem << " failed; trace=" << c.trace);
+		V_CHECK(v.size() == m && (m == 0 || memcmp(v.data(), c.window.data() + c.cur, size_t(m)) == 0), "string read wrong bytes; trace=" << c.trace);
+		c.cur += m;
+		if (c.seen_fail && m) c.nt = true;
+	} else {
+		V_CHECK(o == Out::Err, "string read of " << m << " bytes with rem " << rem << " succeeded; trace=" << c.trace);
+		c.seen_fail = true;
+	}
+}
+template <class S> void typed_prefixed_string(Ctx& c) {
+	uint64_t before = c.cur, rem = c.window.size() - c.cur;
+	std::string v = "stale"; std::string what;
+	Out o = guarded([&] { c.r->template Read<S>(v); }, &what);
+	if (rem < sizeof(S)) { V_CHECK(o == Out::Err, "prefixed string read without room for the prefix succeeded; trace=" << c.trace); c.seen_fail = true; return; }
+	S sz; memcpy(&sz, c.window.data() + c.cur, sizeof(S));
+	bool negative = std::is_signed<S>::value && sz < 0;
+	uint64_t need = negative ? 0 : uint64_t(sz), rem2 = rem - sizeof(S);
+	if (!negative && need <= rem2) {
+		V_CHECK(o == Out::Ok, "prefixed string read size=" << (long long)sz << " rem=" << rem2 << " failed: " << what << "; trace=" << c.trace);
+		V_CHECK(v.size() == need && (need == 0 || memcmp(v.data(), c.window.data() + c.cur + sizeof(S), size_t(need)) == 0), "prefixed string read returned " << v.size() << " bytes / wrong text, encoded " << need << "; trace=" << c.trace);
+		c.cur += sizeof(S) + need;
+		if (c.seen_fail) c.nt = true;
+	} else {
+		V_CHECK(o == Out::Err, "prefixed string read with " << (negative ? "negative" : "unsatisfiable") << " size " << (long long)sz << " (rem " << rem2 << ") succeeded; trace=" << c.trace);
+		uint64_t p = c.r->Position();
+		V_CHECK(p >= before && p <= before + sizeof(S) && p <= c.window.size(), "after failed prefixed string read Position()=" << p << "; trace=" << c.trace);
+		c.cur = p; c.seen_fail = true;
+	}
+}
+
 // size-prefixed container: composite helper.  On failure after the prefix was consumed the cursor may rest
 // anywhere in [before, before+w]; it is re-synchronised from Position().
 template <class S, class E> void typed_prefixed(Ctx& c) {
@@ -229,16 +266,17 @@ void step(Ctx& c, const OpRec& rec) {
 		}
 		break; }
 	case OTypedContainer: {
-		switch (rec.raw % 3) {
+		switch (rec.raw % 4) {
 		case 0: typed_container<uint8_t>(c, a); break;
 		case 1: typed_container<uint16_t>(c, a); break;
-		default: typed_container<uint32_t>(c, a); break;
+		case 2: typed_container<uint32_t>(c, a); break;
+		default: typed_string(c, a); break;
 		}
 		break; }
 	case OTypedPrefixed: {
-		unsigned e = (rec.raw >> 8) % 3;
+		unsigned e = (rec.raw >> 8) % 4;
 		switch (rec.raw % 7) {
-#define PFX(S) (e == 0 ? typed_prefixed<S, uint8_t>(c) : e == 1 ? typed_prefixed<S, uint16_t>(c) : typed_prefixed<S, uint32_t>(c))
+#define PFX(S) (e == 0 ? typed_prefixed<S, uint8_t>(c) : e == 1 ? typed_prefixed<S, uint16_t>(c) : e == 2 ? typed_prefixed<S, uint32_t>(c) : typed_prefixed_string<S>(c))
 		case 0: PFX(uint8_t); break;
 		case 1: PFX(int8_t); break;
 		case 2: PFX(uint16_t); break;
@@ -362,8 +400,8 @@ std::string render(const Decoded& d) {
 	for (size_t i = 0; i < d.ops.size() && i < 12; ++i) {
 		uint8_t op = d.ops[i].op % OpCount;
 		bool uses_arg = op <= OSeekBack || op == OTypedContainer || op == OString;
-		std::string arg = uses_arg ? std::to_string(arg_value(d.ops[i].cls, d.ops[i].raw, len, 0)) + (op <= OSeekBack || op == OString ? "" : ",v" + std::to_string(d.ops[i].raw % 3))
-			: (op == OSeekBegin || op == OSeekEnd) ? "" : "v" + std::to_string(op == OTypedPrefixed ? (d.ops[i].raw % 7) * 10 + (d.ops[i].raw >> 8) % 3 : d.ops[i].raw % 5);
+		std::string arg = uses_arg ? std::to_string(arg_value(d.ops[i].cls, d.ops[i].raw, len, 0)) + (op <= OSeekBack || op == OString ? "" : ",v" + std::to_string(d.ops[i].raw % 4))
+			: (op == OSeekBegin || op == OSeekEnd) ? "" : "v" + std::to_string(op == OTypedPrefixed ? (d.ops[i].raw % 7) * 10 + (d.ops[i].raw >> 8) % 4 : d.ops[i].raw % 5);
 		s += std::string(i ? "," : "") + "\"" + op_name[op] + "(" + arg + ")\"";
 	}
 	if (d.ops.size() > 12) s += ",\"...(" + std::to_string(d.ops.size()) + " ops)\"";
@@ -393,9 +431,9 @@ void run_sweep(Stats& st) {
 	for (uint8_t op = 0; op < OpCount; ++op) {
 		if (op == OSeekBegin || op == OSeekEnd) { alphabet.push_back({op, 0, 0}); continue; }
 		if (op == OTypedFixed || op == OPeekTyped) { for (uint64_t r = 0; r < 5; ++r) alphabet.push_back({op, 0, r}); continue; }
-		if (op == OTypedPrefixed) { for (uint64_t r = 0; r < 7; ++r) for (uint64_t e = 0; e < 3; ++e) alphabet.push_back({op, 0, r | (e << 8)}); continue; }
+		if (op == OTypedPrefixed) { for (uint64_t r = 0; r < 7; ++r) for (uint64_t e = 0; e < 3; ++e) alphabet.push_back({op, 0, r | (e << 8)}); for (uint64_t r = 0; r < 7; ++r) alphabet.push_back({op, 0, r | (uint64_t(3) << 8)}); continue; }
 		for (uint8_t cls = 0; cls < 14; ++cls) {
-			if (op == OTypedContainer) { for (uint64_t r = 0; r < 3; ++r) alphabet.push_back({op, cls, r}); }
+			if (op == OTypedContainer) { for (uint64_t r = 0; r < 4; ++r) alphabet.push_back({op, cls, r}); }
 			else alphabet.push_back({op, cls, 3});
 		}
 	}
